@@ -157,6 +157,14 @@ class FsTap:
         return f
 
     def _copyfile(self, src, dst, **kw):
+        if not kw.get("follow_symlinks", True) and real_os.path.islink(src):
+            # shutil semantics: the link itself is copied, <dst> becomes a second name for the same file
+            self.before("copy_link", src=src, dst=dst)
+            try:
+                return real_copyfile(src, dst, **kw)
+            except OSError:
+                self.ops[-1]["failed"] = True  # e.g. the name exists already: nothing happened
+                raise
         self.before("copy_open", src=src, dst=dst)
         with real_open(src, "r", newline="") as s:
             data = s.read()
